@@ -32,6 +32,12 @@ PYDANTIC_ROOTS = {"BaseModel", "SimComponent"}
 ENUM_ROOTS = {"Enum", "IntEnum", "StrEnum", "Flag", "IntFlag"}
 IMPORT_TIME_FUNCS = {"__init_subclass__", "__pydantic_init_subclass__"}
 RNG_SEEDERS = {"seed"}
+# F-11 repair: the decorator `own_generator_state` saves / restores the STATE of the generators; neither is a draw
+RNG_STATE_CALLS = {"getstate", "setstate", "get_state", "set_state"}
+
+
+def is_draw(call: str) -> bool:
+    return call.split(".")[-1] not in RNG_SEEDERS | RNG_STATE_CALLS
 LOCAL_GENERATOR_FACTORIES = {"default_rng", "Generator", "RandomState", "SeedSequence", "PCG64"}
 
 
@@ -891,7 +897,7 @@ def readers_reachable_from(inv: "Inventory", roots: List[str], entry: str) -> Tu
 def drawers_reachable_from(inv: "Inventory", roots: List[str]) -> Tuple[List[str], bool]:
     """functions that draw from a process-global generator, statically reachable from the given functions"""
     cg = inv.callgraph
-    drawers = {f for (_, f, c) in inv.rng if c.split(".")[-1] not in RNG_SEEDERS}
+    drawers = {f for (_, f, c) in inv.rng if is_draw(c)}
     seen: Dict[Tuple[str, Optional[str]], int] = {}
     trunc = False
     for r in roots:
@@ -1065,6 +1071,27 @@ def emit() -> str:
               "def reachBeforeWrite : List (String × String × List String × Nat × List Nat × Bool) := ["]
     lines.append(",\n".join(f"  ({_s(r['entry'])}, {_s(r['op'])}, {_l(r['calls'])}, {len(r['reached'])}, {ids(r['readers'])}, {'true' if r['truncated'] else 'false'})"
                             for r in inv.reach) + "]")
+    # F-11 repair: `__init__` / `reset` / `step` of the environment classes run on the environment's OWN saved generator state (decorator
+    # `own_generator_state`); every OTHER method of those classes (close, action_masks, _get_obs, the properties, …) runs on whatever the
+    # process-wide generators hold - so none of them may reach a function that draws from one
+    true_drawers = {f for (_, f, c) in inv.rng if is_draw(c)}
+    cg = inv.callgraph
+    unowned = []
+    for q in sorted(cg.byqual):
+        if q.startswith("session.environment:PrimaiteGymEnv.") or q.startswith("session.ray_envs:PrimaiteRayMARLEnv."):
+            node, c = cg.byqual[q]
+            if q.count(".") != 2 or not isinstance(node, (ast.FunctionDef, ast.AsyncFunctionDef)):
+                continue        # nested functions belong to their method
+            if any(ast.unparse(d).split(".")[-1] == "own_generator_state" for d in node.decorator_list):
+                continue
+            seen, trunc = cg.closure(cg.callees(node), c, q)
+            reached = {k[0] for k in seen}
+            unowned.append((q, sorted(reached & true_drawers), len(reached), trunc))
+    lines += ["", "/-- methods of PrimaiteGymEnv / PrimaiteRayMARLEnv that are NOT decorated with `own_generator_state` (they run on whatever the",
+              "process-wide generators hold): (method, the drawing functions statically reachable from it (indices into `fns`), number of package",
+              "functions reachable, whether a bound of the search was hit) -/",
+              "def drawersFromUnownedMethods : List (String × List Nat × Nat × Bool) := ["]
+    lines.append(",\n".join(f"  ({_s(q)}, {ids(d)}, {n}, {'true' if t else 'false'})" for q, d, n, t in unowned) + "]")
     lines += ["", "/-- functions decorated with functools.lru_cache / functools.cache (process-global caches): (function, decorator, whether EVERY return",
               "expression is syntactically immutable, the return expressions) -/",
               "def memoFunctions : List (String × String × Bool × List String) := [" +
